@@ -1,6 +1,6 @@
 (* C01/C02 closed over every row of the generated tables and every admissible degree. *)
 From Coq Require Import ZArith Znumtheory Lia List Arith.
-From NTT Require Import Functors Algebra Layer Transform Rev Inverse Tables NTTInst NTTClosed NumTheoryMC TablesOK Shards C06Closed ScalarOps ScalarClosed.
+From NTT Require Import Functors Algebra Layer Transform Rev Inverse Tables Fused Structural NTTInst NTTClosed NumTheoryMC TablesOK Shards C06Closed ScalarOps ScalarClosed.
 From NTT.gen Require Import Params.
 Import ListNotations.
 Local Open Scope Z_scope.
@@ -18,7 +18,10 @@ Definition transform_ok (w : Z) (K : nat) (rows : list (Z * Z * Z * Z)) : Prop :
      (forall t, (t < n)%nat -> nth t c 0 = (nth t a 0 + nth t b 0) mod p) ->
      forall j, (j < n)%nat -> nth j (ntt_fwd w p g K k0 c) 0 = (nth j (ntt_fwd w p g K k0 a) 0 + nth j (ntt_fwd w p g K k0 b) 0) mod p) /\
   (forall a b, length a = n -> length b = n ->
-     ntt_inv w p g ik K k0 (ntt_mul p k0 (ntt_fwd w p g K k0 a) (ntt_fwd w p g K k0 b)) = nega_spec p k0 a b).
+     ntt_inv w p g ik K k0 (ntt_mul p k0 (ntt_fwd w p g K k0 a) (ntt_fwd w p g K k0 b)) = nega_spec p k0 a b) /\
+  (* the transforms as structured in the source (special case, generic layers, fused last two layers) are the generic ones *)
+  (forall x, length x = n -> ntt_fwd_s w p g K k0 x = ntt_fwd w p g K k0 x) /\
+  (forall y, can y -> ntt_inv_s w p g ik K k0 y = ntt_inv w p g ik K k0 y).
 
 Lemma transform_ok_of_valid w bits K nmod rows : 3 < w -> table_valid w bits (2 ^ Z.of_nat K) nmod rows -> transform_ok w K rows.
 Proof.
@@ -26,12 +29,14 @@ Proof.
   pose proof (row_valid_Hrow w bits _ r Hw Hb V) as HR. destruct (Hrow_facts _ _ HR) as (Hp & H4 & _ & _ & _).
   destruct V as [Vp _ _ _ Vroot _ _ _ Vinv _]. destruct r as [[[p pn] g] ik]. cbn [fst snd] in *.
   apply prime_ge_2 in Vp. assert (Hp1 : 1 < p) by lia. assert (Hw0 : 0 < w) by lia.
-  cbv zeta. split; [|split; [|split; [|split]]].
+  cbv zeta. split; [|split; [|split; [|split; [|split; [|split]]]]].
   - intros x [L C]. apply (closed_inv_fwd w p g ik K k0 Hw0 Hp1 H4 Vroot Vinv Hk). split; assumption.
   - intros y [L C]. apply (closed_fwd_inv w p g ik K k0 Hw0 Hp1 H4 Vroot Vinv Hk). split; assumption.
   - intros x H. exact (closed_fwd_canonical w p g K k0 Hw0 Hp1 H4 Vroot Hk x H).
   - intros a b c La Lb Lc Hc j Hj. apply (closed_fwd_linear w p g K k0 Hw0 Hp1 H4 Vroot Hk a b c La Lb Lc Hc j Hj).
   - intros a b La Lb. apply (closed_product w p g ik K k0 Hw0 Hp1 H4 Vroot Vinv Hk a b La Lb).
+  - intros x L. apply (closed_struct_fwd w p g K k0 Hw0 Hp1 H4 Vroot Hk x L).
+  - intros y [L C]. apply (closed_struct_inv w p g ik K k0 Hw0 Hp1 H4 Vroot Hk). split; assumption.
 Qed.
 
 Theorem transform_ok_tables : transform_ok 16 K16 rows16 /\ transform_ok 32 K32 rows32 /\ transform_ok 64 K64 rows64.
